@@ -78,9 +78,30 @@ Definition set_level (g_debugmode g_tracemode : bool) (lvl : Z) : Z * bool * boo
   else (s_level, g_debugmode, g_tracemode).
 Definition translated_set_level := true.
 
-(* untranslatable: PrintCtx.setentry: /repo/slog/pc.go:87:2: assignment form: s.firstLine, s.restLines, s.eol = "", "", false *)
-Definition pc_setentry := DecisionRef.pc_setentry_ref.
-Definition translated_pc_setentry := false.
+(* PrintCtx.setentry   *)
+   (* ignored (untracked field): s.buf = s.buf[:0] *)
+   (* ignored (untracked field): s.off = 0 *)
+   (* ignored (untracked field): s.lastRead = opInvalid *)
+   (* ignored (untracked fields): s.clr, s.bg = clrBasic, clrNone *)
+   (* ignored (untracked field): s.prefix = "" *)
+   (* ignored (untracked field): s.inGroupedMode = false *)
+   (* ignored (untracked field): s.skipFirstSep = false *)
+   (* ignored (untracked fields): s.firstLine, s.restLines, s.eol = "", "", false *)
+   (* ignored (untracked field): s.layout = e.timeLayout *)
+   (* ignored (untracked field): s.utcTime = e.modeUTC *)
+   (* ignored (untracked field): s.valueStringer = e.valueStringer *)
+   (* ignored (untracked field): s.lvl = e.level *)
+   (* ignored (untracked field): s.kvps = e.attrs *)
+Definition pc_setentry (e_useJSON e_useColor : bool) : bool * bool :=
+  let s_jsonMode := e_useJSON in
+  let useColor := e_useColor in
+  if (e_useJSON && useColor)
+  then let useColor := false in
+  let s_noColor := (negb useColor) in
+  (s_jsonMode, s_noColor)
+  else let s_noColor := (negb useColor) in
+  (s_jsonMode, s_noColor).
+Definition translated_pc_setentry := true.
 
 (* Entry.logContext  (the tail after print) *)
 Definition termination (g_inTesting : bool) (g_flags : Z) (lvl : Z) : action :=
